@@ -1170,12 +1170,18 @@ def refcount_functions(prog):
             continue
         p0 = f.params[0]['name']
         for n in f.all_nodes():
+            up = None
             if n['k'] == 'un' and n['op'] in ('++', 'post++', '--', 'post--'):
+                up = '+' if '+' in n['op'] else '-'
+            elif n['k'] == 'bin' and n['op'] in ('+=', '-=') and \
+                    cu.const_of(cu.strip_casts(f, f.kid(n, 1))) == 1:
+                up = n['op'][0]             # `xrefs -= 1` is `xrefs--`
+            if up is not None:
                 m = cu.strip_casts(f, f.kid(n, 0))
                 if m is not None and m['k'] == 'member' and 'ref' in m['fld']:
                     b = cu.strip_casts(f, f.kid(m, 0))
                     if b is not None and b['k'] == 'ref' and b['name'] == p0:
-                        (acq if '+' in n['op'] else rel).setdefault(f.name, m['fld'])
+                        (acq if up == '+' else rel).setdefault(f.name, m['fld'])
     # an acquirer does nothing but count
     acq = {k: v for k, v in acq.items() if k not in rel}
     return acq, rel
